@@ -254,6 +254,8 @@ ABTU_ret_err static inline int ABTI_ktable_set(ABTI_global *p_global,
                 }
                 /* It has been locked by another. */
                 while (p_ktable == ABTI_KTABLE_LOCKED) {
+                    ABTI_VERIF_SPIN_HINT(ABTI_VERIF_SITE_KTABLE_LOCK,
+                                         pp_ktable);
                     ABTD_atomic_pause();
                     p_ktable = ABTD_atomic_acquire_load_ptr(pp_ktable);
                 }
